@@ -28,7 +28,7 @@ package grandpa
 //          fin v<i>            honest voter i attempts to finalise its round
 //        thr <n>               State.threshold() of n voters (alone on a line)
 // output: one token per op joined by ';', then ';safe=<0|1>' (1: all blocks finalised by honest voters lie on one chain)
-//   best: ok|nobest (the block does not descend from the voter's finalised head)   pv: pv=b<k>|skip|pv=err   pc: pc=b<k>|wait|skip|pc=err   bv: ok
+//   best: ok|nobest (the block does not descend from the voter's finalised head)   pv: pv=b<k>|skip|pv=err   pc: pc=b<k>|wait|skip|pc=err|pc=panic   bv: ok
 //   d: ok|eq|round|notdesc|self|nomsg|err   fin: fin=b<k>|no|skip|fin=err
 
 import (
@@ -60,6 +60,7 @@ var (
 	c22ErrNoFin   = errors.New("c22: no finalised header for that round")
 	c22ErrRuntime = errors.New("c22: no runtime")
 	c22ErrNoPc    = errors.New("c22: no precommits stored")
+	c22ErrPanic   = errors.New("c22: the code panicked")
 )
 
 type c22BlockState struct {
@@ -370,8 +371,19 @@ func (v *c22Voter) act(a engineAction) error {
 	ch := make(chan engineAction)
 	h := newvotingRoundHandler(v.svc, ch)
 	done := make(chan error, 1)
-	go func() { done <- h.Run() }()
-	ch <- a
+	go func() {
+		defer func() { // a panic of the real code must not kill the test binary
+			if r := recover(); r != nil {
+				done <- c22ErrPanic
+			}
+		}()
+		done <- h.Run()
+	}()
+	select {
+	case ch <- a:
+	case err := <-done:
+		return err
+	}
 	select {
 	case err := <-done: // the handler failed on the action
 		return err
@@ -401,8 +413,15 @@ func (v *c22Voter) prevote() (string, *VoteMessage) {
 func (v *c22Voter) gate() string {
 	f := newfinalisationEngine(v.svc)
 	start := v.bs.hasCount()
-	done := make(chan error, 1)
-	go func() { done <- f.defineRoundVotes() }()
+	done := make(chan error, 2)
+	go func() {
+		defer func() { // e.g. "block with supermajority does not belong to the latest finalized block chain"
+			if r := recover(); r != nil {
+				done <- c22ErrPanic
+			}
+		}()
+		done <- f.defineRoundVotes()
+	}()
 	res := ""
 	deadline := time.After(20 * time.Second)
 	tick := time.NewTicker(50 * time.Microsecond)
@@ -418,6 +437,9 @@ func (v *c22Voter) gate() string {
 			}
 		case err := <-done:
 			done <- err
+			if errors.Is(err, c22ErrPanic) {
+				return "panic"
+			}
 			if err != nil {
 				return "err"
 			}
@@ -440,7 +462,10 @@ func (v *c22Voter) gate() string {
 					res = "go"
 				}
 				continue
-			case <-done:
+			case err := <-done:
+				if errors.Is(err, c22ErrPanic) {
+					res = "panic"
+				}
 			}
 			break
 		}
@@ -460,6 +485,8 @@ func (v *c22Voter) precommit() (string, *VoteMessage) {
 	case "go":
 	case "wait":
 		return "wait", nil
+	case "panic":
+		return "pc=panic", nil
 	default:
 		return "pc=err", nil
 	}
